@@ -22,7 +22,9 @@
 From Coq Require Import List String Arith Bool Lia.
 Import ListNotations.
 From MVGen Require Import JsGates_gen.
-From MV Require Import Js.PrintModel Js.PrintSpec Js.PrintGen Js.PrintProofs Js.PrintGroup Js.RewriteModel Js.RewriteSem Js.RewriteProofs Js.RewritePipe Js.RewritePipeProofs Js.StmtModel Js.StmtSem Js.StmtProofs Js.StmtPrint Js.StmtParse Js.StmtPrintProofs.
+From MV Require Import Js.PrintModel Js.PrintSpec Js.PrintGen Js.PrintProofs Js.PrintGroup Js.RewriteModel Js.RewriteSem Js.RewriteProofs Js.RewritePipe Js.RewritePipeProofs Js.StmtModel Js.StmtSem Js.StmtProofs Js.StmtPrint Js.StmtParse Js.StmtPrintProofs Js.NumLit Js.NumLitSpec Js.NumLitProofs.
+From MV Require Base.MvBytes Num.NumModel Num.NumSpec.
+From Coq Require Import ZArith.
 Local Open Scope string_scope.
 
 Example js_prec_tables_ok : prec_tables_ok T_gen = true.
@@ -291,3 +293,39 @@ Example statements_nonvacuous :
   optimize_body T_gen true l <> l /\
   printable_list T_gen 200 (optimize_body T_gen true l) = true /\ else_safe_list T_gen (optimize_body T_gen true l) = true.
 Proof. vm_compute. repeat split; auto; discriminate. Qed.
+
+(* ---------- LITERALS: numeric literals ----------
+   Js/NumLit.v restates removeUnderscoresAndSuffix, decimalNumber, binaryNumber, octalNumber, hexadecimalNumber of js/util.go
+   (tied on 6,000 generated literals per run through a verif hook).  Js/NumLitSpec.v: the literal grammar of ECMA-262 12.9.3
+   (separators, BigInt suffix) and the mathematical value MV of a literal as (is BigInt, m * 10^e).
+   For EVERY well-formed literal the written literal has the same MV and the same kind (Number / BigInt); and whenever a
+   0b / 0o / 0x literal is rewritten in decimal, the int64 accumulator of the Go code does not overflow and the decimal text
+   fits into the literal's own bytes (the code writes it there: b = b[:i+1]) — so the length guards 65 / 23 / 12 (+ leading
+   digit E, F) are sufficient, for all literals, not just the sampled ones. *)
+Theorem prefixed_numeric_literals_keep_their_value : forall k b,
+  k <> KDecimal -> valid_prefixed k b = true ->
+  same_value (lit_value (minify_literal k b)) (prefixed_value k b).
+Proof. exact prefixed_literal_value. Qed.
+Print Assumptions prefixed_numeric_literals_keep_their_value.
+
+Theorem radix_conversion_never_overflows_and_fits : forall k b,
+  k <> KDecimal -> valid_prefixed k b = true ->
+  let b1 := fst (remove_underscores_and_suffix b) in
+  conv_guard k b1 = false ->
+  let n := radix_val (radix_of k) (digit_val k) (skipn 2 b1) in
+  (0 <= n < 2 ^ 63 /\ n < 10 ^ 25 /\ MvBytes.zlen (NumModel.show_nat n) <= MvBytes.zlen b1)%Z.
+Proof. exact conversion_fits. Qed.
+Print Assumptions radix_conversion_never_overflows_and_fits.
+
+Theorem decimal_numeric_literals_keep_their_value : forall b v,
+  decimal_value b = Some v -> (MvBytes.zlen b <= 10 ^ 25)%Z ->
+  same_value (lit_value (minify_literal KDecimal b)) (Some v).
+Proof. exact decimal_literal_value. Qed.
+Print Assumptions decimal_numeric_literals_keep_their_value.
+
+(* non-vacuity at the edges of the guards: 0xDFFFFFFFFF is converted (12 digits), 0xE000000000 is kept, 0b1_0_1n -> 5n *)
+Example numeric_literals_nonvacuous :
+  hexadecimal_number [48; 120; 68; 70; 70; 70; 70; 70; 70; 70; 70; 70]%Z = [57; 54; 50; 48; 55; 50; 54; 55; 52; 51; 48; 51]%Z /\
+  hexadecimal_number [48; 120; 69; 48; 48; 48; 48; 48; 48; 48; 48; 48]%Z = [48; 120; 69; 48; 48; 48; 48; 48; 48; 48; 48; 48]%Z /\
+  binary_number [48; 98; 49; 95; 48; 95; 49; 110]%Z = [53; 110]%Z.
+Proof. vm_compute. repeat split; reflexivity. Qed.
